@@ -433,6 +433,41 @@ def ta_nonempty(a):
     return bool(ta_productive(a) & set(a.get("fin", [])))
 
 
+def ta_trim(a):
+    """the trimmed automaton (evidence / input shaping only; the oracle is TA!Trim in TLC)"""
+    p = ta_productive(a)
+    rules = [r for r in a.get("rules", []) if r[2] in p and all(k in p for k in r[1])]
+    reach = set(q for q in a.get("fin", []) if q in p)
+    ch = True
+    while ch:
+        ch = False
+        for r in rules:
+            if r[2] in reach:
+                for k in r[1]:
+                    if k not in reach:
+                        reach.add(k)
+                        ch = True
+    return {"fin": [q for q in a.get("fin", []) if q in reach], "rules": [r for r in rules if r[2] in reach]}
+
+
+def ta_is_trim(a):
+    """every state productive and reachable top-down from a final state, every state occurs in a rule"""
+    st = ta_states(a)
+    if not st <= ta_productive(a):
+        return False
+    reach = set(a.get("fin", []))
+    ch = True
+    while ch:
+        ch = False
+        for r in a.get("rules", []):
+            if r[2] in reach:
+                for k in r[1]:
+                    if k not in reach:
+                        reach.add(k)
+                        ch = True
+    return st <= reach
+
+
 def ta_rename(a, f):
     return {"fin": [f[q] for q in a.get("fin", [])],
             "rules": [[r[0], [f[k] for k in r[1]], f[r[2]]] for r in a.get("rules", [])]}
